@@ -271,6 +271,11 @@ func (x *clx) stmts(owner string, list []ast.Stmt, closures map[string]string, l
 				out = append(out, t)
 				continue
 			}
+			if isErrCodeExit(s) {
+				// `if item.ErrorCode != 0 { err = Error(item.ErrorCode) [; return] }`: an early exit on a broker error code
+				out = append(out, ".failIfErr")
+				continue
+			}
 			be, ok := s.Cond.(*ast.BinaryExpr)
 			if ok && be.Op == token.GEQ && s.Else == nil {
 				if sel, ok := be.X.(*ast.SelectorExpr); ok && sel.Sel.Name == "v" {
@@ -290,6 +295,257 @@ func (x *clx) stmts(owner string, list []ast.Stmt, closures map[string]string, l
 		}
 	}
 	return strings.Join(out, ", "), nil
+}
+
+// isErrCodeExit recognises `if <x>.ErrorCode != 0 { <v> = Error(<x>.ErrorCode) ; [return …] }`.
+func isErrCodeExit(s *ast.IfStmt) bool {
+	if s.Init != nil || s.Else != nil {
+		return false
+	}
+	be, ok := s.Cond.(*ast.BinaryExpr)
+	if !ok || be.Op != token.NEQ {
+		return false
+	}
+	sel, ok := be.X.(*ast.SelectorExpr)
+	if !ok || !isErrField(sel.Sel.Name) {
+		return false
+	}
+	if lit, ok := be.Y.(*ast.BasicLit); !ok || lit.Value != "0" {
+		return false
+	}
+	found := false
+	for _, st := range s.Body.List {
+		switch b := st.(type) {
+		case *ast.AssignStmt:
+			for _, r := range b.Rhs {
+				if c, ok := r.(*ast.CallExpr); ok {
+					if id, ok := c.Fun.(*ast.Ident); ok && id.Name == "Error" {
+						found = true
+					}
+				}
+			}
+		case *ast.ReturnStmt:
+			for _, r := range b.Results {
+				if c, ok := r.(*ast.CallExpr); ok {
+					if id, ok := c.Fun.(*ast.Ident); ok && id.Name == "Error" {
+						found = true
+					}
+				}
+			}
+		default:
+			return false
+		}
+	}
+	return found
+}
+
+// ---- read-lock discipline (conn.go waitResponse / do / ApiVersions / ReadBatchWith, batch.go close) ----
+
+func isCallOn(st ast.Stmt, recvSuffix, method string) bool {
+	es, ok := st.(*ast.ExprStmt)
+	if !ok {
+		return false
+	}
+	c, ok := es.X.(*ast.CallExpr)
+	if !ok {
+		return false
+	}
+	sel, ok := c.Fun.(*ast.SelectorExpr)
+	if !ok || sel.Sel.Name != method {
+		return false
+	}
+	return strings.HasSuffix(exprString(sel.X), recvSuffix)
+}
+
+func exprString(e ast.Expr) string {
+	switch v := e.(type) {
+	case *ast.Ident:
+		return v.Name
+	case *ast.SelectorExpr:
+		return exprString(v.X) + "." + v.Sel.Name
+	case *ast.UnaryExpr:
+		return v.Op.String() + exprString(v.X)
+	case *ast.StarExpr:
+		return "*" + exprString(v.X)
+	}
+	return "?"
+}
+
+func containsText(n ast.Node, text string) bool {
+	found := false
+	ast.Inspect(n, func(m ast.Node) bool {
+		if e, ok := m.(ast.Expr); ok && exprString(e) == text {
+			found = true
+		}
+		return !found
+	})
+	return found
+}
+
+// waitResponseLockFacts classifies every exit of the wait loop taken while c.rlock is held.
+func waitResponseLockFacts(fd *ast.FuncDecl) (facts map[string]bool, err error) {
+	facts = map[string]bool{"peekErr": false, "noProgress": false, "take": false, "yield": false}
+	var loop *ast.ForStmt
+	for _, st := range fd.Body.List {
+		if f, ok := st.(*ast.ForStmt); ok {
+			loop = f
+		}
+	}
+	if loop == nil {
+		return nil, fmt.Errorf("waitResponse: no for loop")
+	}
+	seen := map[string]int{}
+	var walk func(list []ast.Stmt) error
+	walk = func(list []ast.Stmt) error {
+		for i, st := range list {
+			switch b := st.(type) {
+			case *ast.IfStmt:
+				if err := walk(b.Body.List); err != nil {
+					return err
+				}
+				if b.Else != nil {
+					return fmt.Errorf("waitResponse: else branch")
+				}
+			case *ast.BranchStmt:
+				if b.Tok != token.BREAK {
+					return fmt.Errorf("waitResponse: unexpected %s", b.Tok)
+				}
+				block := &ast.BlockStmt{List: list[:i]}
+				unlocked := false
+				for _, p := range list[:i] {
+					if isCallOn(p, "c.rlock", "Unlock") {
+						unlocked = true
+					}
+				}
+				kind := ""
+				switch {
+				case containsText(block, "c.conn.Close"):
+					kind = "peekErr"
+				case containsText(block, "io.ErrNoProgress"):
+					kind = "noProgress"
+				case containsText(block, "&c.rlock"):
+					kind = "take"
+					unlocked = !unlocked // handing the lock over: it must NOT be unlocked here
+				default:
+					return fmt.Errorf("waitResponse: unclassified break")
+				}
+				seen[kind]++
+				facts[kind] = unlocked
+			case *ast.ReturnStmt:
+				return fmt.Errorf("waitResponse: return inside the wait loop")
+			}
+		}
+		return nil
+	}
+	if err := walk(loop.Body.List); err != nil {
+		return nil, err
+	}
+	for _, k := range []string{"peekErr", "noProgress", "take"} {
+		if seen[k] != 1 {
+			return nil, fmt.Errorf("waitResponse: %d exits of kind %s", seen[k], k)
+		}
+	}
+	n := len(loop.Body.List)
+	facts["yield"] = n > 0 && isCallOn(loop.Body.List[n-1], "c.rlock", "Unlock")
+	return facts, nil
+}
+
+// unlockAfter reports whether, in the top-level statements of fd following the call of `after`, the read lock is
+// released (`lock.Unlock()` / `defer lock.Unlock()` / handed over as `lock: lock`) before any return statement that
+// is not the error check directly following `after`.
+func unlockAfter(fd *ast.FuncDecl, after string, handover bool) bool {
+	idx := -1
+	for i, st := range fd.Body.List {
+		if containsCall(st, after) {
+			idx = i
+			break
+		}
+	}
+	if idx < 0 {
+		return false
+	}
+	rest := fd.Body.List[idx+1:]
+	if len(rest) > 0 { // `if err != nil { return … }` right after the call: the lock was not obtained
+		if is, ok := rest[0].(*ast.IfStmt); ok && exprString(is.Cond.(*ast.BinaryExpr).X) == "err" {
+			rest = rest[1:]
+		}
+	}
+	for _, st := range rest {
+		if d, ok := st.(*ast.DeferStmt); ok {
+			if sel, ok := d.Call.Fun.(*ast.SelectorExpr); ok && sel.Sel.Name == "Unlock" && exprString(sel.X) == "lock" {
+				return true
+			}
+		}
+		if isCallOn(st, "lock", "Unlock") {
+			return true
+		}
+		if r, ok := st.(*ast.ReturnStmt); ok {
+			if handover {
+				ok := false
+				ast.Inspect(r, func(n ast.Node) bool {
+					if kv, is := n.(*ast.KeyValueExpr); is && exprString(kv.Key) == "lock" && exprString(kv.Value) == "lock" {
+						ok = true
+					}
+					return true
+				})
+				return ok
+			}
+			return false
+		}
+		hasReturn := false
+		ast.Inspect(st, func(n ast.Node) bool {
+			if _, ok := n.(*ast.ReturnStmt); ok {
+				hasReturn = true
+			}
+			if _, ok := n.(*ast.FuncLit); ok {
+				return false
+			}
+			return true
+		})
+		if hasReturn {
+			return false
+		}
+	}
+	return false
+}
+
+func containsCall(n ast.Node, name string) bool {
+	found := false
+	ast.Inspect(n, func(m ast.Node) bool {
+		if c, ok := m.(*ast.CallExpr); ok {
+			switch f := c.Fun.(type) {
+			case *ast.Ident:
+				found = found || f.Name == name
+			case *ast.SelectorExpr:
+				found = found || f.Sel.Name == name
+			}
+		}
+		return !found
+	})
+	return found
+}
+
+// batchCloseUnlocks: (*Batch).close releases the lock it holds on every path: `if lock != nil { lock.Unlock() }` is a
+// top-level statement and no return statement occurs before it.
+func batchCloseUnlocks(fd *ast.FuncDecl) bool {
+	for _, st := range fd.Body.List {
+		if is, ok := st.(*ast.IfStmt); ok && len(is.Body.List) >= 1 && isCallOn(is.Body.List[len(is.Body.List)-1], "lock", "Unlock") {
+			if be, ok := is.Cond.(*ast.BinaryExpr); ok && be.Op == token.NEQ && exprString(be.X) == "lock" {
+				return true
+			}
+		}
+		hasReturn := false
+		ast.Inspect(st, func(n ast.Node) bool {
+			if _, ok := n.(*ast.ReturnStmt); ok {
+				hasReturn = true
+			}
+			return true
+		})
+		if hasReturn {
+			return false
+		}
+	}
+	return false
 }
 
 func (x *clx) callOrNested(owner string, c *ast.CallExpr, closures map[string]string, locals map[string]string) (string, error) {
@@ -411,6 +667,9 @@ func extractConnLegacy(repo, root string) error {
 					}
 					if r == "Conn" {
 						connFns[dd.Name.Name] = dd
+					}
+					if r == "Batch" && dd.Name.Name == "close" {
+						connFns["Batch.close"] = dd
 					}
 				} else if dd.Name.Name == "discardOnKafkaError" || dd.Name.Name == "expectZeroSize" {
 					connFns[dd.Name.Name] = dd
@@ -542,6 +801,21 @@ func extractConnLegacy(repo, root string) error {
 	}
 	fmt.Fprintf(&b, "/-- protocol.go expectZeroSize contains `sz != 0` -/\ndef expectZeroSizeChecks : Bool := %v\n", ez)
 	fmt.Fprintf(&b, "/-- conn.go discardOnKafkaError = errors.As(err, &kafkaError) guarding discardN(r, size, size) -/\ndef discardOnKafkaErrorDrains : Bool := %v\n\n", dk)
+	// read-lock discipline
+	for _, m := range []string{"waitResponse", "do", "ApiVersions", "ReadBatchWith", "Batch.close"} {
+		if connFns[m] == nil {
+			return fmt.Errorf("untranslated: %s not found", m)
+		}
+	}
+	wf, err := waitResponseLockFacts(connFns["waitResponse"])
+	if err != nil {
+		return fmt.Errorf("untranslated: %v", err)
+	}
+	b.WriteString("/-- conn.go/batch.go: on which exit paths the Conn's read lock (rlock) is released / handed over -/\n")
+	fmt.Fprintf(&b, "def lockFacts : LockFacts := { peekErr := %v, noProgress := %v, yield := %v, take := %v, doBody := %v, apiVersions := %v, batchHandover := %v, batchClose := %v }\n\n",
+		wf["peekErr"], wf["noProgress"], wf["yield"], wf["take"], unlockAfter(connFns["do"], "waitResponse", false),
+		unlockAfter(connFns["ApiVersions"], "waitResponse", false), unlockAfter(connFns["ReadBatchWith"], "waitResponse", true),
+		batchCloseUnlocks(connFns["Batch.close"]))
 	b.WriteString("def callsOf (m : String) : List String := ((calls.find? (·.1 == m)).map (·.2)).getD []\n")
 	b.WriteString("def versionsOf (m : String) : List Nat := ((negotiated.find? (·.1 == m)).map (·.2)).getD []\n")
 	b.WriteString("end KV.Gen.ConnLegacy\n")
